@@ -765,5 +765,10 @@ def run(ctx) -> list:
     cg = CallGraph(ctx.index)
     sf = SqlFacts(ctx.index)
     scope = _scope(ctx, cg)
-    return [rule_r1(ctx, cg), rule_r2(ctx, cg, scope), rule_r3(ctx), rule_r4(ctx, cg, scope), rule_r5(ctx, cg, sf),
+    results = [rule_r1(ctx, cg), rule_r2(ctx, cg, scope), rule_r3(ctx), rule_r4(ctx, cg, scope), rule_r5(ctx, cg, sf),
             rule_r6(ctx), rule_r7(ctx, cg), rule_r8(ctx, cg)]
+    if ctx.thorough:
+        from ..core.cgcheck import crosscheck
+
+        results.append(crosscheck(ctx, cg, "C05.CG"))
+    return results
